@@ -15,6 +15,52 @@ Proof.
   - right. replace (s + S p) with (S s + p) by lia. apply IH. exact H.
 Qed.
 
+(* ---------------------------------------------------------------- runs *)
+
+Inductive chain : list entry -> Prop :=
+| chain1 : forall e, chain [e]
+| chainS : forall e f st, idx f = S (idx e) -> S (pair f) = pair e -> chain (f :: st) -> chain (e :: f :: st).
+
+(* pin: the stem-run test of the source *)
+Lemma continues_spec : forall e f, continues e f = true <-> idx f = S (idx e) /\ S (pair f) = pair e.
+Proof. intros e f. unfold continues, stem_continue. lia. Qed.
+
+Lemma runs_concat : forall es, concat (runs es) = es.
+Proof.
+  induction es as [|e es IH]; [reflexivity|]. cbn [runs].
+  destruct (runs es) as [|[|f run] rest] eqn:E.
+  - cbn in IH. subst es. reflexivity.
+  - cbn [concat app] in *. subst es. reflexivity.
+  - destruct (continues e f); cbn [concat app] in *; rewrite <- IH; reflexivity.
+Qed.
+
+Lemma runs_chain : forall es st, In st (runs es) -> chain st.
+Proof.
+  induction es as [|e es IH]; intros st H; [destruct H|]. cbn [runs] in H.
+  destruct (runs es) as [|[|f run] rest] eqn:E.
+  - destruct H as [<-|[]]. constructor.
+  - destruct H as [<-|H]; [constructor|]. apply IH. right. exact H.
+  - destruct (continues e f) eqn:Ec.
+    + destruct H as [<-|H].
+      * apply continues_spec in Ec. destruct Ec. constructor; try assumption. apply IH. left. reflexivity.
+      * apply IH. right. exact H.
+    + destruct H as [<-|H]; [constructor|]. apply IH. exact H.
+Qed.
+
+Lemma chain_nth : forall st, chain st -> forall t e e0, nth_error st 0 = Some e0 -> nth_error st t = Some e ->
+    idx e = idx e0 + t /\ pair e + t = pair e0.
+Proof.
+  induction 1 as [e1|e1 f st Hi Hp Hc IH]; intros t e e0 H0 Ht.
+  - destruct t as [|[|t]]; cbn in *; try discriminate. injection H0 as <-. injection Ht as <-. lia.
+  - cbn in H0. injection H0 as <-. destruct t as [|t]; cbn in Ht.
+    + injection Ht as <-. lia.
+    + destruct (IH t e f eq_refl Ht). lia.
+Qed.
+
+Lemma chain_nonempty : forall st, chain st -> exists e0, nth_error st 0 = Some e0.
+Proof. intros st [e|e f st' _ _ _]; eexists; reflexivity. Qed.
+
+
 Section Valid.
   Variable b : bpseq.
   Hypothesis Hv : valid b = true.
@@ -61,51 +107,6 @@ Section Valid.
     destruct (nth_error b i) as [e|] eqn:Ei; [|apply nth_error_None in Ei; lia].
     symmetry in E. pose proof (valid_idx i e Ei). pose proof (valid_idx j e E). lia.
   Qed.
-
-  (* ---------------------------------------------------------------- runs *)
-
-  Inductive chain : list entry -> Prop :=
-  | chain1 : forall e, chain [e]
-  | chainS : forall e f st, idx f = S (idx e) -> S (pair f) = pair e -> chain (f :: st) -> chain (e :: f :: st).
-
-  (* pin: the stem-run test of the source *)
-  Lemma continues_spec : forall e f, continues e f = true <-> idx f = S (idx e) /\ S (pair f) = pair e.
-  Proof. intros e f. unfold continues, stem_continue. lia. Qed.
-
-  Lemma runs_concat : forall es, concat (runs es) = es.
-  Proof.
-    induction es as [|e es IH]; [reflexivity|]. cbn [runs].
-    destruct (runs es) as [|[|f run] rest] eqn:E.
-    - cbn in IH. subst es. reflexivity.
-    - cbn [concat app] in *. subst es. reflexivity.
-    - destruct (continues e f); cbn [concat app] in *; rewrite <- IH; reflexivity.
-  Qed.
-
-  Lemma runs_chain : forall es st, In st (runs es) -> chain st.
-  Proof.
-    induction es as [|e es IH]; intros st H; [destruct H|]. cbn [runs] in H.
-    destruct (runs es) as [|[|f run] rest] eqn:E.
-    - destruct H as [<-|[]]. constructor.
-    - destruct H as [<-|H]; [constructor|]. apply IH. right. exact H.
-    - destruct (continues e f) eqn:Ec.
-      + destruct H as [<-|H].
-        * apply continues_spec in Ec. destruct Ec. constructor; try assumption. apply IH. left. reflexivity.
-        * apply IH. right. exact H.
-      + destruct H as [<-|H]; [constructor|]. apply IH. exact H.
-  Qed.
-
-  Lemma chain_nth : forall st, chain st -> forall t e e0, nth_error st 0 = Some e0 -> nth_error st t = Some e ->
-      idx e = idx e0 + t /\ pair e + t = pair e0.
-  Proof.
-    induction 1 as [e1|e1 f st Hi Hp Hc IH]; intros t e e0 H0 Ht.
-    - destruct t as [|[|t]]; cbn in *; try discriminate. injection H0 as <-. injection Ht as <-. lia.
-    - cbn in H0. injection H0 as <-. destruct t as [|t]; cbn in Ht.
-      + injection Ht as <-. lia.
-      + destruct (IH t e f eq_refl Ht). lia.
-  Qed.
-
-  Lemma chain_nonempty : forall st, chain st -> exists e0, nth_error st 0 = Some e0.
-  Proof. intros st [e|e f st' _ _ _]; eexists; reflexivity. Qed.
 
   Definition es := paired53 b.
 
